@@ -369,6 +369,15 @@ func GenGrammar(t *rapid.T, o GenOpts) *Grammar {
 			}
 		}
 	}
+	if o.SingleSafe && o.RefTrims && singleSeesRTrim(g) {
+		// Single would return the child of a right-trimmed one-child sequence, which ends before
+		// the whitespace: wrapped in a sequence of its own, Single unwraps that one again
+		for _, e := range g.exprs() {
+			if e.K == KSingle {
+				e.Kids = []*Expr{{K: KSeqOf, Kids: e.Kids}}
+			}
+		}
+	}
 	fixRepetitions(g, t, o.Alphabet)
 	if o.LRFree {
 		fixLeftRecursion(g, t, o.Alphabet)
